@@ -229,7 +229,14 @@ Definition gsvd_predict_norm_key (prow pcol psr : Q -> Q) (ncol : nat) (reg : Q)
 Definition pca_operator (nrow ncol : nat) (A : mat) : sparselr :=
   {| slr_mat := A;
      slr_lr := [(vneg (vones nrow), map (fun s => s / qn nrow) (qmat_vec (transpose_n ncol A) (vones nrow)))] |}.
-Definition pca_fit (sU : mat) (sS : vec) (sV : mat) : mat * mat * vec := (sU, sV, sS).
+(** (embedding_row_, embedding_col_, singular_values_).  [normalized] is a constructor argument of PCA
+    but [PCA.fit] never reads it: no normalisation is applied. *)
+Definition pca_fit (normalized : bool) (sU : mat) (sS : vec) (sV : mat) : mat * mat * vec := (sU, sV, sS).
+(** [PCA.predict] is inherited from GSVD and evaluates [np.power(self.weights_col_, self.factor_col)]
+    with [weights_col_ = None] (PCA.fit never sets it): TypeError for every argument. *)
+Inductive predict_error := TypeError.
+Definition pca_predict_row (weights_col : option vec) (x : vec) : vec + predict_error :=
+  match weights_col with None => inr TypeError | Some _ => inl x end.
 (** SPECIFICATION: the centred matrix A - 1 mean^T, mean_j = column mean. *)
 Definition col_means (nrow ncol : nat) (A : mat) : vec := map (fun s => s / qn nrow) (col_sums ncol A).
 Definition centered (nrow ncol : nat) (A : mat) : mat := map (fun r => vsub r (col_means nrow ncol A)) A.
